@@ -552,6 +552,7 @@ CHECKS = {
         "tests": [
             {"name": "TestC20", "quick": 480, "thorough": 24000, "shards": {"quick": 12, "thorough": 16}},
             {"name": "TestC20Compiled", "quick": 4, "thorough": 160, "shards": {"quick": 2, "thorough": 16}},
+            {"name": "TestC20ManyNames", "kind": "plain", "quick": 1, "thorough": 1, "shards": {"quick": 1, "thorough": 1}},
         ],
     },
 }
